@@ -20,6 +20,9 @@
 
 
 // C++ Standard Library includes
+#include <algorithm>
+#include <fstream>
+#include <iterator>
 #include <stdexcept>
 
 
@@ -57,7 +60,8 @@ Counted::Counted( const filename::Definition& fname_def, size_t max_entries,
 
 
 
-/// Checks the currently open file if it can still be used, i.e. it is empty.
+/// Checks the currently open file if it can still be used, i.e. it is empty
+/// or contains less than the maximum number of entries.
 ///
 /// @return
 ///    \c true if the current log file can still be used, \c false if the log
@@ -66,12 +70,18 @@ Counted::Counted( const filename::Definition& fname_def, size_t max_entries,
 bool Counted::openCheck()
 {
 
-   if (fileSize() != 0)
-      return false;
-
    // a new, empty log file: start to count its entries from 0 again
    mNumberOfEntries = 0;
-   return true;
+   if (fileSize() == 0)
+      return true;
+
+   // an existing log file is continued (after a restart of the process):
+   // count the entries that it already contains, one per line
+   std::ifstream  existing( mCurrentLogfileName);
+   mNumberOfEntries = std::count( std::istreambuf_iterator< char>( existing),
+      std::istreambuf_iterator< char>(), '\n');
+
+   return mNumberOfEntries < mMaxEntries;
 } // Counted::openCheck
 
 
